@@ -173,7 +173,7 @@ func (x *XmlNode) Find(start int, m meta.Definition) int {
 	for i := start; i < len(x.Nodes); i++ {
 		if x.Nodes[i].XMLName.Local == m.Ident() {
 			if x.Nodes[i].XMLName.Space != "" {
-				ns := meta.OriginalModule(m).Namespace()
+				ns := meta.DefiningModule(m).Namespace()
 				if x.Nodes[i].XMLName.Space != ns {
 					continue
 				}
